@@ -6,8 +6,6 @@ namespace Adsb.C19
 open Adsb
 set_option linter.unusedSimpArgs false
 
-def slice (l : List UInt8) (p n : Nat) : List UInt8 := (l.drop p).take n
-
 theorem slice_length (l : List UInt8) (p n : Nat) (h : p + n ≤ l.length) : (slice l p n).length = n := by
   unfold slice; rw [List.length_take, List.length_drop]; omega
 
@@ -188,29 +186,6 @@ theorem seekBack_good (rc : RC) (j : Nat) (h : rc.Good) (hj : j ≤ rc.pos) : (r
   · show rc.pos - j = rc.inner.pos - j; rw [h1]
   · show rc.pos - j ≤ rc.cache.length; omega
 
-/-- the calls deku's `Reader` issues while decoding -/
-inductive Call where
-  | read (k : Nat)
-  | seekBack (j : Nat)
-
-/-- the abstract cursor the decoder model is written over: offset and highest offset read -/
-def specRun (data : List UInt8) : Nat → Nat → List Call → Option (List (List UInt8) × Nat × Nat)
-  | pos, hi, [] => some ([], pos, hi)
-  | pos, hi, .read k :: rest =>
-    if pos + k ≤ data.length then
-      (specRun data (pos + k) (max hi (pos + k)) rest).map (fun r => (slice data pos k :: r.1, r.2))
-    else none
-  | pos, hi, .seekBack j :: rest => if j ≤ pos then specRun data (pos - j) hi rest else none
-
-/-- the same calls on `ReaderCrc` over a scheduled reader -/
-def concRun : RC → List Call → Option (List (List UInt8) × RC)
-  | rc, [] => some ([], rc)
-  | rc, .read k :: rest =>
-    match readExact (rc.inner.sched.length + k + 1) rc k with
-    | .ok (bs, rc') => (concRun rc' rest).map (fun r => (bs :: r.1, r.2))
-    | _ => none
-  | rc, .seekBack j :: rest => if j ≤ rc.pos then concRun (rc.seekBack j) rest else none
-
 /-- **refinement**: for every schedule, every sequence of `read_exact` / backward-seek calls delivers the same bytes as
 reading the slice directly, ends at the same offset, and leaves `ReaderCrc`'s cache equal to the first `hi` bytes — the
 window the checksum is computed over. Hence `from_reader` computes what `from_bytes` computes. -/
@@ -250,6 +225,155 @@ theorem reader_refines_cursor (calls : List Call) : ∀ (rc : RC), rc.Good →
       · rw [if_pos hj, if_pos hj]
         exact ih (rc.seekBack j) (seekBack_good rc j hg hj)
       · rw [if_neg hj, if_neg hj]
+
+theorem drop_shift (pre d : List UInt8) (p : Nat) : (pre ++ d).drop (p + pre.length) = d.drop p := by
+  rw [Nat.add_comm, ← List.drop_drop, List.drop_left]
+
+theorem inner_read_shift (r : Inner) (pre : List UInt8) (want : Nat) :
+    ({ r with data := pre ++ r.data, pos := r.pos + pre.length } : Inner).read want =
+      ((r.read want).1, { (r.read want).2 with data := pre ++ (r.read want).2.data, pos := (r.read want).2.pos + pre.length }) := by
+  unfold Inner.read
+  cases hs : r.sched with
+  | nil =>
+    simp only [drop_shift, List.length_append]
+    have : pre.length + r.data.length - (r.pos + pre.length) = r.data.length - r.pos := by omega
+    simp [this]; omega
+  | cons e rest =>
+    cases e with
+    | intr => rfl
+    | chunk k =>
+      simp only [drop_shift, List.length_append]
+      have : pre.length + r.data.length - (r.pos + pre.length) = r.data.length - r.pos := by omega
+      simp [this]; omega
+
+theorem rc_read_shift (rc : RC) (pre : List UInt8) (want : Nat) :
+    (rc.shift pre).read want = ((rc.read want).1, (rc.read want).2.shift pre) := by
+  unfold RC.read RC.shift
+  simp only [inner_read_shift]
+  cases h : rc.inner.read want with
+  | mk o i => cases o <;> rfl
+
+def shiftRes (pre : List UInt8) : Res (List UInt8 × RC) → Res (List UInt8 × RC)
+  | .ok (bs, rc) => .ok (bs, rc.shift pre)
+  | .err e => .err e
+  | .panic p => .panic p
+
+theorem readExact_shift (pre : List UInt8) (fuel : Nat) : ∀ (rc : RC) (want : Nat),
+    readExact fuel (rc.shift pre) want = shiftRes pre (readExact fuel rc want) := by
+  induction fuel with
+  | zero => intro rc want; rfl
+  | succ fuel ih =>
+    intro rc want
+    cases want with
+    | zero => rfl
+    | succ w =>
+      simp only [readExact, rc_read_shift]
+      cases h : rc.read (w + 1) with
+      | mk o rc' =>
+        cases o with
+        | none => simp only; exact ih rc' (w + 1)
+        | some bs =>
+          simp only
+          split
+          · rfl
+          · rw [ih]
+            cases readExact fuel rc' (w + 1 - bs.length) with
+            | ok r => obtain ⟨a, b⟩ := r; rfl
+            | err e => rfl
+            | panic p => rfl
+
+theorem seekBack_shift (pre : List UInt8) (rc : RC) (j : Nat) (hj : j ≤ rc.inner.pos) :
+    (rc.shift pre).seekBack j = (rc.seekBack j).shift pre := by
+  unfold RC.seekBack RC.shift
+  simp only
+  congr 2
+  omega
+
+theorem rc_read_pos (rc : RC) (want : Nat) (h : rc.pos = rc.inner.pos) : (rc.read want).2.pos = (rc.read want).2.inner.pos := by
+  unfold RC.read Inner.read
+  cases hs : rc.inner.sched with
+  | nil => simp only [List.length_take, List.length_drop]; omega
+  | cons e rest =>
+    cases e with
+    | intr => exact h
+    | chunk k => simp only [List.length_take, List.length_drop]; omega
+
+theorem readExact_pos (fuel : Nat) : ∀ (rc rc' : RC) (want : Nat) (bs : List UInt8), rc.pos = rc.inner.pos →
+    readExact fuel rc want = .ok (bs, rc') → rc'.pos = rc'.inner.pos := by
+  induction fuel with
+  | zero => intro rc rc' want bs _ h; cases h
+  | succ fuel ih =>
+    intro rc rc' want bs hp h
+    cases want with
+    | zero => simp only [readExact] at h; cases h; exact hp
+    | succ w =>
+      simp only [readExact] at h
+      have hp' := rc_read_pos rc (w + 1) hp
+      cases hr : rc.read (w + 1) with
+      | mk o rc1 =>
+        rw [hr] at h hp'
+        cases o with
+        | none => exact ih rc1 rc' _ bs hp' h
+        | some b1 =>
+          simp only at h
+          split at h
+          · cases h
+          · cases h2 : readExact fuel rc1 (w + 1 - b1.length) with
+            | ok r =>
+              obtain ⟨a, b⟩ := r
+              rw [h2] at h
+              cases h
+              exact ih rc1 _ _ a hp' h2
+            | err e => rw [h2] at h; cases h
+            | panic p => rw [h2] at h; cases h
+
+/-- **a frame that does not start at offset 0 of its reader**: with any prefix in front (the reader standing just after it),
+every call sequence returns the same bytes and leaves the same cache and offset as at offset 0 -/
+theorem concRun_shift (pre : List UInt8) (calls : List Call) : ∀ (rc : RC), rc.pos = rc.inner.pos →
+    concRun (rc.shift pre) calls = (concRun rc calls).map (fun r => (r.1, r.2.shift pre)) := by
+  induction calls with
+  | nil => intro rc _; rfl
+  | cons c rest ih =>
+    intro rc hp
+    cases c with
+    | read k =>
+      simp only [concRun]
+      have hs : (rc.shift pre).inner.sched.length = rc.inner.sched.length := rfl
+      rw [hs, readExact_shift]
+      cases hr : readExact (rc.inner.sched.length + k + 1) rc k with
+      | ok r =>
+        obtain ⟨bs, rc'⟩ := r
+        simp only [shiftRes]
+        rw [ih rc' (readExact_pos _ rc rc' k bs hp hr)]
+        cases concRun rc' rest <;> rfl
+      | err e => rfl
+      | panic p => rfl
+    | seekBack j =>
+      simp only [concRun]
+      have : (rc.shift pre).pos = rc.pos := rfl
+      rw [this]
+      split
+      · rename_i hj
+        rw [seekBack_shift pre rc j (by omega)]
+        exact ih (rc.seekBack j) (by show rc.pos - j = rc.inner.pos - j; rw [hp])
+      · rfl
+
+/-- **refinement at any offset**: `from_reader` on a reader that stands after an arbitrary prefix (a frame inside a longer
+stream) behaves, for every schedule, exactly like the slice cursor over the frame's own bytes -/
+theorem reader_refines_cursor_at_offset (pre : List UInt8) (calls : List Call) (rc : RC) (hg : rc.Good) :
+    match specRun rc.inner.data rc.pos rc.cache.length calls with
+    | some (outs, pos, hi) => ∃ rc' : RC, concRun (rc.shift pre) calls = some (outs, rc'.shift pre) ∧ rc'.pos = pos ∧
+        (rc'.shift pre).cache = rc.inner.data.take hi
+    | none => concRun (rc.shift pre) calls = none := by
+  have h := reader_refines_cursor calls rc hg
+  rw [concRun_shift pre calls rc hg.1]
+  cases hs : specRun rc.inner.data rc.pos rc.cache.length calls with
+  | none => rw [hs] at h; simp [h]
+  | some r =>
+    obtain ⟨outs, pos, hi⟩ := r
+    rw [hs] at h
+    obtain ⟨rc', h1, _, h3, _, h5⟩ := h
+    exact ⟨rc', by rw [h1]; rfl, h3, h5⟩
 
 /-- decoding is a pure function of the bytes (the model is a function; repetition and interleaving cannot matter) -/
 theorem decode_pure (B : Buf) : decode B = decode B := rfl
